@@ -1,0 +1,153 @@
+//! Thin public wrappers around crate-private scheduler components (cargo feature `verif`).
+//!
+//! Every method forwards to the production function; nothing is re-implemented here. The external
+//! verification harness drives these components from its own threads.
+#![allow(missing_docs, unreachable_pub, missing_debug_implementations, clippy::all)]
+
+use super::{
+    Scheduler,
+    context::SchedulerContext,
+    cursor::{PublishedCursor, RewindableCursor},
+    wait::WaitSlot,
+};
+use crate::tx_dependency::TxDependency;
+use revm::DatabaseRef;
+use std::time::Duration;
+
+pub struct VCursor(RewindableCursor);
+
+impl VCursor {
+    pub fn new(value: usize) -> Self {
+        Self(RewindableCursor::new(value))
+    }
+    pub fn get(&self) -> usize {
+        self.0.get()
+    }
+    pub fn claim_before(&self, limit: usize) -> Option<usize> {
+        self.0.claim_before(limit)
+    }
+    pub fn rewind(&self, value: usize) -> usize {
+        self.0.rewind(value)
+    }
+}
+
+pub struct VContext(SchedulerContext);
+
+impl VContext {
+    pub fn new(num_txs: usize) -> Self {
+        Self(SchedulerContext::new(num_txs))
+    }
+    pub fn rewind_validation_to(&self, index: usize) {
+        self.0.rewind_validation_to(index)
+    }
+    pub fn logical_timestamp(&self) -> usize {
+        self.0.logical_timestamp()
+    }
+    pub fn executed(&self, index: usize) {
+        self.0.executed(index)
+    }
+    pub fn unconfirmed(&self, index: usize, timestamp: usize) {
+        self.0.unconfirmed(index, timestamp)
+    }
+    pub fn finished(&self) -> bool {
+        self.0.finished()
+    }
+    pub fn finality_idx(&self) -> usize {
+        self.0.finality_idx()
+    }
+    pub fn publish_finality(&self, index: usize) {
+        self.0.publish_finality(index)
+    }
+    pub fn committed_idx(&self) -> usize {
+        self.0.committed_idx()
+    }
+    pub fn publish_commit(&self, index: usize) {
+        self.0.publish_commit(index)
+    }
+    pub fn validation_idx(&self) -> usize {
+        self.0.validation_idx()
+    }
+    pub fn lower_timestamp(&self, index: usize) -> usize {
+        self.0.lower_timestamp(index)
+    }
+    pub fn unconfirmed_timestamp(&self, index: usize) -> usize {
+        self.0.unconfirmed_timestamp(index)
+    }
+    pub fn execution_frontier(&self) -> usize {
+        self.0.execution_frontier()
+    }
+    pub fn should_schedule(&self, executing_idx: usize) -> bool {
+        self.0.should_schedule(executing_idx)
+    }
+    pub fn next_validation_idx(&self, executing_idx: usize) -> Option<usize> {
+        self.0.next_validation_idx(executing_idx)
+    }
+}
+
+pub struct VWaitSlot(WaitSlot);
+
+impl VWaitSlot {
+    pub fn new() -> Self {
+        Self(WaitSlot::new())
+    }
+    pub fn register_current_thread(&self) {
+        self.0.register_current_thread()
+    }
+    pub fn notify(&self) {
+        self.0.notify()
+    }
+    pub fn wait_while(&self, timeout: Duration, blocked: impl FnMut() -> bool) {
+        self.0.wait_while(timeout, blocked)
+    }
+    pub fn slot_id(&self) -> usize {
+        &self.0 as *const WaitSlot as usize
+    }
+}
+
+/// The dependency graph together with the committed-prefix cursor that `key_tx` reads.
+pub struct VTxDependency {
+    dependency: TxDependency,
+    committed: PublishedCursor,
+}
+
+impl VTxDependency {
+    pub fn new(num_txs: usize) -> Self {
+        Self { dependency: TxDependency::new(num_txs), committed: PublishedCursor::new(0) }
+    }
+    pub fn next(&self) -> Option<usize> {
+        self.dependency.next()
+    }
+    pub fn index(&self) -> usize {
+        self.dependency.index()
+    }
+    pub fn remove(&self, txid: usize, pop_next: bool) -> Option<usize> {
+        self.dependency.remove(txid, pop_next)
+    }
+    pub fn commit(&self, txid: usize) {
+        self.dependency.commit(txid)
+    }
+    pub fn key_tx(&self, txid: usize) {
+        self.dependency.key_tx(txid, self.committed.reader())
+    }
+    pub fn add(&self, txid: usize, dep_id: Option<usize>) {
+        self.dependency.add(txid, dep_id)
+    }
+    pub fn publish_commit(&self, index: usize) {
+        self.committed.publish(index)
+    }
+    pub fn committed_idx(&self) -> usize {
+        self.committed.get()
+    }
+}
+
+impl<DB> Scheduler<DB>
+where
+    DB: DatabaseRef + Send + Sync,
+    DB::Error: Clone + Send + Sync + 'static,
+{
+    /// Forward to the crate-private `cancel()`: lets the harness unwind a run it has diagnosed as
+    /// stuck.
+    pub fn verif_cancel(&self) {
+        self.cancel()
+    }
+}
